@@ -52,6 +52,9 @@ def rules(ctx, db):
         post = [bb for bb, t in calls(f, r"Actor::post_stop$")]
         ok = all(len(x) == 1 for x in (bs, pre, dr, post)) and f.cfg.dominates(bs[0], pre[0]) and \
             f.cfg.dominates(pre[0], dr[0]) and f.cfg.dominates(dr[0], post[0])
+        ctx.ob("R1", "lifecycle-completes", ok and all(f.cfg.postdominates(x[0], bs[0]) for x in (pre, dr, post)),
+               "once the stop has begun, pre_stop, the release of the receiver and post_stop lie on every path to the end "
+               "(no early return between the hooks)", f)
         ctx.ob("R1", "lifecycle-order", ok,
                "begin_stop (mailbox closed to new sends) ≺ pre_stop ≺ drop(receiver) ≺ post_stop, each exactly once", f)
     MI = r"^compio_actor::mailbox::MailboxInner$"
